@@ -4,7 +4,7 @@ C20 — Cached discovery records expire on time.
 The record store of `simple-mdns/src/resource_record_manager.rs` with the clock
 as an explicit `now : Nat` (milliseconds).  `abs s` is the store seen as a map
 from records (up to the crate's record equality `rrEq`: name, class, RDATA —
-TTL and cache-flush bit ignored) to `Kind` (`auth` or `cached expireAt`); every
+TTL and cache-flush bit ignored) to `Kind` (`auth` or `cached expireAt refreshAt`); every
 operation refines the transition function `absStep`, for every history
 (`abs_run`).  The expiry theorems are then statements about what the queries
 (`getDomain`) return, read through `abs`.
@@ -21,7 +21,8 @@ theorem C20.abs_addCached (s : Store) (r : RR) (now : Nat) (x : RR) :
     abs (s.addCached r now) x =
       if rrEq x r = true then
         (if abs s r = some .auth then some .auth
-         else some (.cached (now + 1000 * (if r.flush = true then 1 else r.ttl))))
+         else some (.cached (now + 1000 * (if r.flush = true then 1 else r.ttl))
+                (now + 1000 * refreshOffsetSecs (if r.flush = true then 1 else r.ttl))))
       else abs s x := Mdns.abs_addCached s r now x
 
 theorem C20.abs_remove (s : Store) (r x : RR) :
@@ -50,28 +51,28 @@ def effTtl (r : RR) : Nat := if r.flush = true then 1 else r.ttl
 /-- whatever a cache query returns is a cache entry that has not expired -/
 theorem cache_expiry {s : Store} (hI : Inv s) {name : Name} {now : Nat} {x : RR}
     (hx : x ∈ (s.getDomain name Filter.cachedOnly now).flatten) :
-    ∃ e, abs s x = some (.cached e) ∧ now < e := by
+    ∃ e rf, abs s x = some (.cached e rf) ∧ now < e := by
   obtain ⟨kind, habs, hm⟩ := hI.abs_of_mem_getDomain hx
-  obtain ⟨e, rfl, he⟩ := Filter.cachedOnly_matches.mp hm
-  exact ⟨e, habs, he⟩
+  obtain ⟨e, rf, rfl, he⟩ := Filter.cachedOnly_matches.mp hm
+  exact ⟨e, rf, habs, he⟩
 
 /-- a live cache entry is returned (as the stored representative of its `rrEq` class) by the cache
 query for every name that has a trie node and whose key is a prefix of the owner's key -/
-theorem cache_returned {s : Store} {x : RR} {e now : Nat} (hx : abs s x = some (.cached e))
+theorem cache_returned {s : Store} {x : RR} {e rf now : Nat} (hx : abs s x = some (.cached e rf))
     (hlt : now < e) {name : Name} (hn : s.nodeExists (getKey name) = true)
     (hp : isPrefixOf (getKey name) (getKey x.name) = true) :
     ∃ x', rrEq x' x = true ∧ x' ∈ (s.getDomain name Filter.cachedOnly now).flatten :=
-  getDomain_of_abs hx (Filter.cachedOnly_matches.mpr ⟨e, rfl, hlt⟩) (by simpa [Filter.cachedOnly] using ⟨hn, hp⟩)
+  getDomain_of_abs hx (Filter.cachedOnly_matches.mpr ⟨e, rf, rfl, hlt⟩) (by simpa [Filter.cachedOnly] using ⟨hn, hp⟩)
 
 /-- in particular by the query for the owner name itself -/
-theorem cache_returned_self {s : Store} {x : RR} {e now : Nat} (hx : abs s x = some (.cached e))
+theorem cache_returned_self {s : Store} {x : RR} {e rf now : Nat} (hx : abs s x = some (.cached e rf))
     (hlt : now < e) :
     ∃ x', rrEq x' x = true ∧ x' ∈ (s.getDomain x.name Filter.cachedOnly now).flatten := by
   obtain ⟨b, _, hb, _, _⟩ := mem_of_abs hx
   exact cache_returned hx hlt (Store.nodeExists_of_mem (Store.bucket_mem hb)) (isPrefixOf_refl _)
 
 /-- and by the query for every ancestor name at which the trie has a node -/
-theorem cache_returned_ancestor {s : Store} {x : RR} {e now : Nat} (hx : abs s x = some (.cached e))
+theorem cache_returned_ancestor {s : Store} {x : RR} {e rf now : Nat} (hx : abs s x = some (.cached e rf))
     (hlt : now < e) {name : Name} (hn : s.nodeExists (getKey name) = true) (hs : name <:+ x.name) :
     ∃ x', rrEq x' x = true ∧ x' ∈ (s.getDomain name Filter.cachedOnly now).flatten :=
   cache_returned hx hlt hn (key_prefix_of_suffix hs)
@@ -80,12 +81,12 @@ theorem cache_returned_ancestor {s : Store} {x : RR} {e now : Nat} (hx : abs s x
 expiry instant -/
 theorem cache_query_iff {s : Store} (hI : Inv s) (x : RR) (now : Nat) :
     (∃ x', rrEq x' x = true ∧ x' ∈ (s.getDomain x.name Filter.cachedOnly now).flatten) ↔
-      ∃ e, abs s x = some (.cached e) ∧ now < e := by
+      ∃ e rf, abs s x = some (.cached e rf) ∧ now < e := by
   constructor
   · rintro ⟨x', he, hx'⟩
-    obtain ⟨e, h1, h2⟩ := cache_expiry hI hx'
-    exact ⟨e, by rw [← abs_congr s he]; exact h1, h2⟩
-  · rintro ⟨e, h1, h2⟩; exact cache_returned_self h1 h2
+    obtain ⟨e, rf, h1, h2⟩ := cache_expiry hI hx'
+    exact ⟨e, rf, by rw [← abs_congr s he]; exact h1, h2⟩
+  · rintro ⟨e, rf, h1, h2⟩; exact cache_returned_self h1 h2
 
 /-! ### the history statement -/
 
@@ -93,7 +94,8 @@ theorem cache_query_iff {s : Store} (hI : Inv s) (x : RR) (now : Nat) :
 and nothing but an operation on `r` itself (or `clear`) changes that -/
 theorem abs_after_addCached {s : Store} {r : RR} (h : abs s r ≠ some .auth) (t : Nat)
     {ops : List Op} (hops : ∀ op ∈ ops, op.touches r = false) :
-    abs ((s.addCached r t).run ops) r = some (.cached (t + 1000 * effTtl r)) := by
+    abs ((s.addCached r t).run ops) r =
+      some (.cached (t + 1000 * effTtl r) (t + 1000 * refreshOffsetSecs (effTtl r))) := by
   rw [abs_run_untouched _ hops, abs_addCached, if_pos (rrEq_refl r), if_neg h]; rfl
 
 /-- If the last reception of `r` happened at time `t` and no later operation concerned `r`, a cache
@@ -105,8 +107,8 @@ theorem cached_lifetime {s : Store} (hI : Inv s) {r : RR} (h : abs s r ≠ some 
       now < t + 1000 * effTtl r := by
   rw [cache_query_iff ((hI.addCached r t).run ops), abs_after_addCached h t hops]
   constructor
-  · rintro ⟨e, he, hlt⟩; cases he; exact hlt
-  · intro hlt; exact ⟨_, rfl, hlt⟩
+  · rintro ⟨e, rf, he, hlt⟩; cases he; exact hlt
+  · intro hlt; exact ⟨_, _, rfl, hlt⟩
 
 /-- the same for complete histories from the empty store -/
 theorem cached_lifetime_history (pre : List Op) {r : RR}
@@ -121,8 +123,8 @@ theorem cached_lifetime_history (pre : List Op) {r : RR}
 
 /-- an expired entry is not returned by any query, under any filter, for any name, at the expiry
 instant or at any later time -/
-theorem expired_never_returned {s : Store} (hI : Inv s) {x : RR} {e now : Nat}
-    (hx : abs s x = some (.cached e)) (he : e ≤ now) :
+theorem expired_never_returned {s : Store} (hI : Inv s) {x : RR} {e rf now : Nat}
+    (hx : abs s x = some (.cached e rf)) (he : e ≤ now) :
     ∀ now', now ≤ now' → ∀ (name : Name) (f : Filter) (x' : RR), rrEq x' x = true →
       x' ∉ (s.getDomain name f now').flatten := by
   intro now' hn name f x' heq hmem
@@ -134,15 +136,15 @@ theorem expired_never_returned {s : Store} (hI : Inv s) {x : RR} {e now : Nat}
 
 /-- and it stays excluded until an operation concerns the record again (a new reception or a local
 registration) -/
-theorem expired_stays_excluded {s : Store} (hI : Inv s) {x : RR} {e now : Nat}
-    (hx : abs s x = some (.cached e)) (he : e ≤ now)
+theorem expired_stays_excluded {s : Store} (hI : Inv s) {x : RR} {e rf now : Nat}
+    (hx : abs s x = some (.cached e rf)) (he : e ≤ now)
     {ops : List Op} (hops : ∀ op ∈ ops, op.touches x = false) :
     ∀ now', now ≤ now' → ∀ (name : Name) (f : Filter) (x' : RR), rrEq x' x = true →
       x' ∉ ((s.run ops).getDomain name f now').flatten :=
   expired_never_returned (hI.run ops) (by rw [abs_run_untouched s hops]; exact hx) he
 
 /-- a new reception revives it with the new expiry instant -/
-theorem expired_revived {s : Store} {x : RR} {e : Nat} (hx : abs s x = some (.cached e))
+theorem expired_revived {s : Store} {x : RR} {e rf : Nat} (hx : abs s x = some (.cached e rf))
     (t now : Nat) (hlt : now < t + 1000 * effTtl x) :
     ∃ x', rrEq x' x = true ∧
       x' ∈ ((s.addCached x t).getDomain x.name Filter.cachedOnly now).flatten := by
@@ -150,8 +152,8 @@ theorem expired_revived {s : Store} {x : RR} {e : Nat} (hx : abs s x = some (.ca
   exact cache_returned_self (abs_after_addCached (ops := []) h t (by simp)) hlt
 
 /-- cache entries, expired or not, are never returned by authoritative-only queries -/
-theorem cached_not_in_auth_query {s : Store} (hI : Inv s) {x : RR} {e : Nat}
-    (hx : abs s x = some (.cached e)) (sub : Bool) (name : Name) (now : Nat) (x' : RR)
+theorem cached_not_in_auth_query {s : Store} (hI : Inv s) {x : RR} {e rf : Nat}
+    (hx : abs s x = some (.cached e rf)) (sub : Bool) (name : Name) (now : Nat) (x' : RR)
     (heq : rrEq x' x = true) : x' ∉ (s.getDomain name (Filter.auth sub) now).flatten := by
   intro hmem
   obtain ⟨kind, habs, hm⟩ := hI.abs_of_mem_getDomain hmem
@@ -180,7 +182,7 @@ theorem auth_never_expires_all {s : Store} {r : RR} (h : abs s r = some .auth) (
 theorem auth_not_in_cache_only {s : Store} (hI : Inv s) {name : Name} {now : Nat} :
     ∀ x ∈ (s.getDomain name Filter.cachedOnly now).flatten, abs s x ≠ some .auth := by
   intro x hx h
-  obtain ⟨e, he, _⟩ := cache_expiry hI hx
+  obtain ⟨e, rf, he, _⟩ := cache_expiry hI hx
   rw [h] at he; cases he
 
 /-- … nor any record equal to one -/
@@ -282,7 +284,7 @@ def st : Store := Store.empty.run [.addAuth recA, .addCached recB 0]
 
 example : Inv st := Reachable.inv ⟨_, rfl⟩
 example : abs st recA = some .auth := by decide
-example : abs st recB = some (.cached 2000) := by decide
+example : abs st recB = some (.cached 2000 1000) := by decide
 
 /-- TTL 2 received at time 0: returned at 1999 ms, not at 2000 ms, neither through the owner name
 nor through its parent -/
@@ -303,7 +305,7 @@ example : ((st.addCached recB 5000).getDomain nBA Filter.cachedOnly 6999).flatte
 example : ((st.addCached recB 5000).getDomain nBA Filter.cachedOnly 7000).flatten = [] := by decide
 
 /-- the cache-flush bit: one second, not 4500 -/
-example : abs (st.addCached recF 10) recF = some (.cached 1010) := by decide
+example : abs (st.addCached recF 10) recF = some (.cached 1010 10) := by decide
 example : ((st.addCached recF 10).getDomain nBA Filter.cachedOnly 1009).flatten = [recB, recF] := by decide
 example : ((st.addCached recF 10).getDomain nBA Filter.cachedOnly 1010).flatten = [recB] := by decide
 
